@@ -524,4 +524,4 @@ MANIFEST = {
             "enter/exit events; Python's `with` semantics. Non-LIFO (generator-interleaved) exits are outside the quantifier.",
 }
 
-MANIFEST_ADDENDUM = "Oracle additions: inside no_autodiff, in-place updates keep the gradients, base links and consumer sets of target, view and operand; reading an existing view's lazily derived .grad (or base, repr) leaves the switches as the scope set them."
+MANIFEST_ADDENDUM = "Oracle additions: inside no_autodiff, in-place updates keep the gradients, base links and consumer sets of target, view and operand; reading an existing view's lazily derived .grad (or base, repr) leaves the switches as the scope set them. Round 5: mixed-dtype arithmetic and batchnorm/softmax with narrower data than parameters inside no_autodiff (dtype promotion must equal the tracked result's); .shape = as an untracked in-place statement (same array object, views see it)."
